@@ -50,6 +50,9 @@ pub struct Outcome {
     pub labels: Vec<String>,
     /// Counters of things excluded by construction or not judged.
     pub excluded: Vec<String>,
+    /// Additional numeric counters summed into the evidence (e.g. injected fault points).
+    #[serde(default)]
+    pub counters: Vec<(String, usize)>,
 }
 
 impl Outcome {
@@ -61,6 +64,7 @@ impl Outcome {
             nontrivial: false,
             labels: vec![],
             excluded: vec![],
+            counters: vec![],
         }
     }
     pub fn skip(why: &str) -> Outcome {
@@ -183,6 +187,30 @@ fn seed32(parts: &[&str]) -> [u8; 32] {
 // ---------------------------------------------------------------------------------------------
 // worker handle (parent side)
 
+/// The executable workers are spawned from: a private copy of this binary taken at start-up, so
+/// that a rebuild of the harness during a long run cannot pull the binary from under it.
+pub fn worker_exe() -> PathBuf {
+    static EXE: std::sync::OnceLock<PathBuf> = std::sync::OnceLock::new();
+    EXE.get_or_init(|| {
+        let cur = std::env::current_exe().expect("current_exe");
+        let dir = build_dir().join("tmp");
+        let _ = std::fs::create_dir_all(&dir);
+        let copy = dir.join(format!("vp-run-{}", std::process::id()));
+        match std::fs::copy(&cur, &copy) {
+            Ok(_) => copy,
+            Err(_) => cur,
+        }
+    })
+    .clone()
+}
+
+pub fn remove_worker_exe() {
+    let p = worker_exe();
+    if p.file_name().map(|n| n.to_string_lossy().starts_with("vp-run-")).unwrap_or(false) {
+        let _ = std::fs::remove_file(p);
+    }
+}
+
 pub struct Worker {
     child: Child,
     stdin: ChildStdin,
@@ -199,7 +227,7 @@ pub enum WorkerReply {
 
 impl Worker {
     pub fn spawn(prop: &str) -> Worker {
-        let exe = std::env::current_exe().expect("current_exe");
+        let exe = worker_exe();
         // spawning can fail transiently (EAGAIN under load): retry before giving up
         let mut tries = 0;
         let mut child = loop {
@@ -345,6 +373,7 @@ struct Stats {
     nontrivial_keys: HashSet<u64>,
     labels: BTreeMap<String, usize>,
     excluded: BTreeMap<String, usize>,
+    counters: BTreeMap<String, usize>,
     known_seen: BTreeMap<String, usize>,
     inconclusive: usize,
     samples: Vec<Value>,
@@ -363,6 +392,9 @@ impl Stats {
         }
         for l in &o.excluded {
             *self.excluded.entry(l.clone()).or_default() += 1;
+        }
+        for (k, v) in &o.counters {
+            *self.counters.entry(k.clone()).or_default() += *v;
         }
         if o.nontrivial && o.status != Status::Skip {
             let key = fnv64(serde_json::to_string(case).unwrap().as_bytes());
@@ -384,6 +416,9 @@ impl Stats {
         }
         for (k, v) in other.excluded {
             *self.excluded.entry(k).or_default() += v;
+        }
+        for (k, v) in other.counters {
+            *self.counters.entry(k).or_default() += v;
         }
         for (k, v) in other.known_seen {
             *self.known_seen.entry(k).or_default() += v;
@@ -424,6 +459,12 @@ pub struct Violation {
     pub case: Value,
     pub outcome: Outcome,
     pub origin: String,
+}
+
+/// Build/scratch directory (default `<root>/.build`; `VP_BUILD` overrides it for isolated
+/// evaluation of seeded changes).
+pub fn build_dir() -> PathBuf {
+    std::env::var("VP_BUILD").map(PathBuf::from).unwrap_or_else(|_| verif_root().join(".build"))
 }
 
 pub fn verif_root() -> PathBuf {
@@ -801,7 +842,7 @@ pub fn run_check(prop: Arc<dyn Property>, tier: Tier) -> i32 {
         println!("{l}");
     }
     let mut exit = 0;
-    let viol_dir = root.join("violations").join(id);
+    let viol_dir = std::env::var("VP_VIOLATIONS_DIR").map(PathBuf::from).unwrap_or_else(|_| root.join("violations")).join(id);
     // deterministic order, one line per distinct signature
     violations.sort_by(|a, b| a.outcome.sig.cmp(&b.outcome.sig));
     let mut seen_sigs = HashSet::new();
@@ -850,7 +891,7 @@ pub fn run_check(prop: Arc<dyn Property>, tier: Tier) -> i32 {
         "seed": seed,
         "level": prop.level(),
         "coverage": {
-            "evaluations": total.evaluations,
+            "evaluations": total.evaluations + total.counters.get("extra_evaluations").copied().unwrap_or(0),
             "distinct_nontrivial": nontrivial,
             "rule": prop.rule(),
             "samples": samples,
@@ -862,6 +903,7 @@ pub fn run_check(prop: Arc<dyn Property>, tier: Tier) -> i32 {
             "generated_cases_requested": params.cases,
             "labels": labels,
             "excluded_by_construction": total.excluded,
+            "counters": total.counters,
             "known_findings_seen": total.known_seen,
             "inconclusive_timeouts_or_worker_deaths": total.inconclusive,
             "jobs": jobs,
@@ -870,7 +912,7 @@ pub fn run_check(prop: Arc<dyn Property>, tier: Tier) -> i32 {
         "wall_s": (wall * 100.0).round() / 100.0,
         "violations": violations.len(),
     });
-    let ev_dir = root.join("evidence");
+    let ev_dir = std::env::var("VP_EVIDENCE_DIR").map(PathBuf::from).unwrap_or_else(|_| root.join("evidence"));
     let _ = std::fs::create_dir_all(&ev_dir);
     let _ = std::fs::write(
         ev_dir.join(format!("{id}.json")),
@@ -970,8 +1012,7 @@ pub fn worker_main(prop: Arc<dyn Property>) -> ! {
     crate::fmt::install_panic_recorder();
     // no ICE dump files from rustfmt binaries spawned by checks
     std::env::set_var("RUSTC_ICE", "0");
-    let root = verif_root();
-    let build = root.join(".build");
+    let build = build_dir();
     let tmp = build.join("tmp").join(format!("w{}", std::process::id()));
     let _ = std::fs::create_dir_all(&tmp);
     let mut rctx = RunCtx {
